@@ -6,6 +6,10 @@
    generated: the server produced the unit's RTP packets itself (otherwise the publisher's packets
    were passed through and the property does not apply). psig / dsig: [length, checksum] of every
    element of the delivered payload / of what the real depacketizer returned for the packets.   *)
+(* Records with branch = "persist" are runs over ONE always-available Stream whose format lives
+   through several sub-streams (phases: offline filler, publisher, RTP publisher): units = <<>>,
+   emits[i].unit is the phase, and only the run-level formulas apply, over everything a reader of
+   the format received across the phases.                                                       *)
 EXTENDS RtpPack
 
 Trace == ndJsonDeserialize("C23_trace.ndjson")
